@@ -6,6 +6,7 @@ CONSTANTS
   MaxCtx = 1
   MaxBi = 8
   MaxVars = 2
+  Progs = {1, 2}
   GrowSteps = 1
   Texts <- AllTexts
   Outcomes <- OutcomesMC
